@@ -214,24 +214,38 @@ class Ctx:
         ok, _ = self.coq_build(targets, "model")
         return ok
 
-    def coq_proofs(self, prop_file, allowed_axioms=()):
-        """(Re)compile the property file so Print Assumptions output is fresh; count obligations."""
-        src_path = os.path.join(COQ, prop_file)
-        src = strip_comments(open(src_path).read())
-        theorems = re.findall(r"^\s*Theorem\s+(\w+)", src, re.M)
-        self.obligations = len(theorems)
-        self.theorems = theorems
-        vo = src_path[:-2] + ".vo"
-        if os.path.exists(vo):
-            os.remove(vo)
+    def coq_proofs(self, prop_file, allowed_axioms=(), more=()):
+        """(Re)compile the property file(s) so Print Assumptions output is fresh; count obligations.
+        `more`: further statement files of the same property (e.g. composition theorems)."""
+        self.obligations = 0
+        self.discharged = 0
+        self.theorems = []
+        self.print_assumptions = []
         hits = self.grep_forbidden()
         if hits:
             self.broken.append(("proof: forbidden command in the development", "\n".join(hits[:20])))
+        ok_all = True
+        for pf in [prop_file] + list(more):
+            ok_all = self._proofs_one(pf, allowed_axioms) and ok_all
+        if not ok_all:
+            self.discharged = 0
+        elif self.tier == "thorough" and os.environ.get("VERIF_COQCHK", "1") == "1":
+            self.coqchk([prop_file] + list(more))
+        return ok_all
+
+    def _proofs_one(self, prop_file, allowed_axioms):
+        src_path = os.path.join(COQ, prop_file)
+        src = strip_comments(open(src_path).read())
+        theorems = re.findall(r"^\s*Theorem\s+(\w+)", src, re.M)
+        self.obligations += len(theorems)
+        self.theorems += theorems
+        vo = src_path[:-2] + ".vo"
+        if os.path.exists(vo):
+            os.remove(vo)
         ok, out = self.coq_build([prop_file[:-2] + ".vo"], "proof")
         if not ok:
             m = re.search(r'File "\./([^"]+)", line (\d+)', out)
             self.broken_theorem = "%s (first error in %s line %s)" % (prop_file, m.group(1), m.group(2)) if m else prop_file
-            self.discharged = 0
             return False
         closed = len(re.findall(r"Closed under the global context", out))
         axioms = []
@@ -240,23 +254,23 @@ class Ctx:
                 m = re.match(r"^(\S+)\s*:", line)
                 if m:
                     axioms.append(m.group(1))
-        self.print_assumptions = ["%d x 'Closed under the global context'" % closed] + sorted(set(axioms))
+        self.print_assumptions += ["%s: %d x 'Closed under the global context'" % (prop_file, closed)] + sorted(set(axioms))
         bad = [a for a in set(axioms) if a not in allowed_axioms]
         n_pa = len(re.findall(r"^\s*Print\s+Assumptions\s+(\w+)", src, re.M))
         if bad:
             self.broken.append(("proof: unexpected axioms " + ", ".join(sorted(bad)), out[-2000:]))
-            self.discharged = 0
             return False
-        if n_pa < self.obligations:
+        if n_pa < len(theorems) or closed + len(set(axioms)) < len(theorems):
             self.broken.append(("proof: a Theorem in %s lacks Print Assumptions" % prop_file, ""))
-        self.discharged = self.obligations
-        if self.tier == "thorough" and os.environ.get("VERIF_COQCHK", "1") == "1":
-            self.coqchk(prop_file)
+        self.discharged += len(theorems)
         return True
 
-    def coqchk(self, prop_file):
-        mod = "SX." + prop_file[:-2].replace("/", ".")
-        cmd = ["coqchk", "-silent", "-o", "-Q", COQ, "SX", mod]
+    def coqchk(self, prop_files):
+        if isinstance(prop_files, str):
+            prop_files = [prop_files]
+        mods = ["SX." + pf[:-2].replace("/", ".") for pf in prop_files]
+        mod = " ".join(mods)
+        cmd = ["coqchk", "-silent", "-o", "-Q", COQ, "SX"] + mods
         self.checker_cmds.append(" ".join(cmd))
         t = time.time()
         rc, out = sh(cmd, timeout=7200, cwd=COQ)
